@@ -19,13 +19,22 @@ class _Disp(object):
 
 
 def replay_proxy(w, rec):
-  class Iface(object):
+  class Base(object):
+    def inherited(self, x): pass
+  class Iface(Base):
     def Foo(self, a, b=1): pass
     def _bar(self, *a, **k): pass
+    def acquire(self, name, timeout=None): pass
   cls = core.ClientProxyBuilder._BuildServiceProxy(Iface)
   bad = []
-  for name in ('Foo', '_bar'):
-    for args, kwargs in (((), {}), ((1, 'x'), {}), ((1,), {'b': [2]}), ((), {'k': None})):
+  for name in ('Foo', '_bar', 'inherited', 'acquire'):
+    for suffix in ('', '_async'):
+      if not hasattr(cls, name + suffix) or getattr(cls, name + suffix) is getattr(Iface, name + suffix, None):
+        bad.append('generated client has no proxy for %s%s' % (name, suffix))
+  if bad:
+    return True, '\n'.join(bad)
+  for name in ('Foo', '_bar', 'inherited', 'acquire'):
+    for args, kwargs in (((), {}), ((1, 'x'), {}), ((1,), {'b': [2]}), ((), {'k': None}), (('a',), {'timeout': 30})):
       for suffix in ('', '_async'):
         obj = cls.__new__(cls)
         obj._dispatcher = d = _Disp()
@@ -45,6 +54,15 @@ def _endpoints(p):
 
 def replay_tcp(w, rec):
   bad = []
+  # one parser used for several URIs, and a URI naming an endpoint twice: exactly the listed endpoints, in order
+  p = core.ScalesUriParser()
+  for uri, want in (('tcp://a:1,b:2', [('a', 1), ('b', 2)]), ('tcp://c:3', [('c', 3)]), ('tcp://a:1,b:2,a:1', [('a', 1), ('b', 2), ('a', 1)])):
+    try:
+      got = _endpoints(p.Parse(uri))
+    except Exception as e:
+      got = 'raised %r' % (e,)
+    if got != want:
+      bad.append('%s (parser reused) -> %r, expected %r' % (uri, got, want))
   for n in range(1, 6):
     want = [('h%d.example' % k, 1000 + 7 * k) for k in range(n)]
     uri = 'tcp://' + ','.join('%s:%d' % e for e in want)
